@@ -4,9 +4,9 @@
  * usage: c07_entrypoints <seed> <tmpdir> <casefile> [nframes]
  *
  * casefile lines:
- *   case <id> <path> <trunc|-1> <nedits> [<off>:<hexbytes>]...
- * The file <path> is read, the edits are applied (bytes overwritten from <off>,
- * the buffer grows if needed), the result is cut to <trunc> bytes (-1: keep)
+ *   case <id> <path> <trunc|-1> <nedits> [<off>:<hexbytes> | d<off>:<count>]...
+ * The file <path> is read, the edits are applied in order (bytes overwritten from <off>,
+ * the buffer grows if needed; d = <count> bytes removed at <off>), the result is cut to <trunc> bytes (-1: keep)
  * and written to <tmpdir>/<basename of path> for the path and FILE entry points.
  *
  * Output per case (flushed line by line so that an abort names the case):
@@ -337,10 +337,20 @@ static int run_case(const char *id, const char *src, long trunc, int nedits, cha
 	}
 	cap = size;
 	for (k = 0; k < nedits; k++) {
-		long off = atol(edits[k]), n;
+		long off, n;
 		char *colon = strchr(edits[k], ':');
 		if (!colon)
 			continue;
+		if (edits[k][0] == 'd') {	/* d<off>:<count>  remove bytes (chunk surgery) */
+			off = atol(edits[k] + 1);
+			n = atol(colon + 1);
+			if (off >= 0 && n > 0 && off + n <= cap) {
+				memmove(buf + off, buf + off + n, (size_t)(cap - off - n));
+				cap -= n;
+			}
+			continue;
+		}
+		off = atol(edits[k]);
 		n = get_hex(colon + 1, &e);
 		if (n < 0 || off < 0)
 			continue;
@@ -464,21 +474,35 @@ int main(int argc, char **argv)
 		perror(argv[3]);
 		return 2;
 	}
-	while (fgets(line, sizeof(line), cf)) {
-		char *tok[1024];
-		int n = 0;
-		char *p = strtok(line, "\t\n");
-		while (p && n < 1024) {
-			tok[n++] = p;
-			p = strtok(NULL, "\t\n");
+	/* Read the whole case list first and close it: libxmp forks for external unpackers (Rar, MO3), and the
+	 * child's exit() would move the shared file offset of an open input stream back (cases would run twice). */
+	{
+		char **lines = NULL;
+		long nl = 0, cap = 0, k;
+		while (fgets(line, sizeof(line), cf)) {
+			if (nl == cap) {
+				cap = cap ? cap * 2 : 1024;
+				lines = (char **)realloc(lines, (size_t)cap * sizeof(char *));
+			}
+			lines[nl++] = strdup(line);
 		}
-		if (n < 5 || strcmp(tok[0], "case"))
-			continue;
-		if (atoi(tok[4]) > n - 5)
-			continue;
-		if (run_case(tok[1], tok[2], atol(tok[3]), atoi(tok[4]), tok + 5, argv[2], seed) < 0)
-			return 2;
+		fclose(cf);
+		for (k = 0; k < nl; k++) {
+			char *tok[1024];
+			int n = 0;
+			char *p = strtok(lines[k], "\t\n");
+			while (p && n < 1024) {
+				tok[n++] = p;
+				p = strtok(NULL, "\t\n");
+			}
+			if (n >= 5 && !strcmp(tok[0], "case") && atoi(tok[4]) <= n - 5) {
+				fflush(stdout);
+				if (run_case(tok[1], tok[2], atol(tok[3]), atoi(tok[4]), tok + 5, argv[2], seed) < 0)
+					return 2;
+			}
+			free(lines[k]);
+		}
+		free(lines);
 	}
-	fclose(cf);
 	return 0;
 }
